@@ -414,6 +414,13 @@ func opUnsubscribe(r *Run, cl *clientState, idx int, op *Op) {
 			}
 		}
 		if mv == nil {
+			for i := range r.model.Dropped {
+				if d := &r.model.Dropped[i]; d.Key == string(kv.Key) && d.V.Ts == kv.Version {
+					mv = &d.V // committed, delivered, and later removed by a drop
+				}
+			}
+		}
+		if mv == nil {
 			r.violateLocked([]string{"C32"}, "subscriber-unknown-write", "c%d subscriber received %q@%d which was never committed", cl.id, kv.Key, kv.Version)
 			return
 		}
@@ -840,6 +847,9 @@ func opGC(r *Run, cl *clientState, idx int, op *Op) {
 	case errors.Is(err, badger.ErrNoRewrite), errors.Is(err, badger.ErrRejected):
 		r.probe("gc_no_rewrite")
 	default:
+		if r.blockedByDrop(err) {
+			return // the rewrite's write-back was rejected while a drop had writes blocked
+		}
 		r.violate([]string{"C15", "C38"}, "gc-error", "c%d RunValueLogGC(%.2f) failed: %v", cl.id, ratio, err)
 	}
 }
